@@ -204,6 +204,39 @@ def run_entry(args):
         s2 = z3.Solver()
         nadded2 = 0
         reach_by_name = {}
+        cover_pre = {}
+        if opts.get("reach_fresh"):
+            # opts reach_fresh: one model usually witnesses many assertion sites / cover points at once. Ask (on a never-pushed
+            # solver, under ALL assumptions - stronger than the per-site prefix, so a witness found here is a witness there) for
+            # a model reaching any not-yet-witnessed site, tick off everything that model reaches, repeat. Whatever stays
+            # unwitnessed falls through to the ordinary per-site query below.
+            pend_ = {}
+            for o2 in ex.obligations:
+                if o2.kind == "assert" and o2.guard is not False:
+                    pend_.setdefault(("a", o2.name), []).append(to_z3_bool(o2.guard))
+            for cn_, cg_ in ex.covers.items():
+                if cg_ is not False and cg_ is not True:
+                    pend_.setdefault(("c", cn_), []).append(to_z3_bool(cg_))
+            for _round in range(12):
+                if not pend_:
+                    break
+                sr_ = z3.Solver()
+                for a_ in ex.assumes:
+                    sr_.add(a_)
+                sr_.add(z3.Or(*[g_ for gs_ in pend_.values() for g_ in gs_]))
+                nq += 1
+                if sr_.check() != z3.sat:
+                    break
+                m_ = sr_.model()
+                hit_ = [k_ for k_, gs_ in pend_.items() if any(z3.is_true(m_.eval(g_, model_completion=True)) for g_ in gs_)]
+                if not hit_:
+                    break
+                for k_ in hit_:
+                    del pend_[k_]
+                    if k_[0] == "a":
+                        reach_by_name[k_[1]] = True
+                    else:
+                        cover_pre[k_[1]] = "sat"
         sinc, ninc = None, 0
         for i, ob in enumerate(ex.obligations):
             while nadded2 < ob.nassume and nadded2 < len(ex.assumes) and not fresh:
@@ -232,11 +265,20 @@ def run_entry(args):
                 rec["batched"] = True
                 if ob.kind == "assert":
                     if ob.name not in reach_by_name:
-                        s2.push()
-                        s2.add(z3.Or(*[to_z3_bool(o2.guard) for o2 in ex.obligations if o2.kind == "assert" and o2.name == ob.name and o2.guard is not False]))
-                        rr = s2.check()
+                        gor_ = z3.Or(*[to_z3_bool(o2.guard) for o2 in ex.obligations if o2.kind == "assert" and o2.name == ob.name and o2.guard is not False])
+                        if opts.get("reach_fresh"):
+                            # opts reach_fresh: vacuity/cover witnesses on a never-pushed solver (non-incremental pipeline, see batch_fresh)
+                            sr_ = z3.Solver()
+                            for a_ in ex.assumes[:min(ob.nassume, len(ex.assumes))]:
+                                sr_.add(a_)
+                            sr_.add(gor_)
+                            rr = sr_.check()
+                        else:
+                            s2.push()
+                            s2.add(gor_)
+                            rr = s2.check()
+                            s2.pop()
                         nq += 1
-                        s2.pop()
                         reach_by_name[ob.name] = (rr == z3.sat)
                     rec["reachable"] = reach_by_name[ob.name]
                 else:
@@ -318,7 +360,10 @@ def run_entry(args):
             if not fresh:
                 sc.add(a)
         for name, g in ex.covers.items():
-            if fresh and g is not False:
+            if name in cover_pre:
+                res["covers"][name] = cover_pre[name]
+                continue
+            if (fresh or opts.get("reach_fresh")) and g is not False:
                 sc = z3.Solver()
                 for a in ex.assumes:
                     sc.add(a)
@@ -393,6 +438,11 @@ def load_known_findings():
 def run_check(check, tier="quick", seed=0, replay_only=None):
     t0 = time.time()
     pid = check["id"]
+    # optional per-tier package / harness lists ("packages_quick", "harness_quick", ...): lets a check keep a heavy
+    # package (e.g. ./actor) out of the quick tier's vdump when only thorough-tier entries need it
+    if ("packages_" + tier) in check or ("harness_" + tier) in check:
+        check = dict(check, packages=check.get("packages_" + tier, check["packages"]), harness=check.get("harness_" + tier, check["harness"]),
+                     entries=[e for e in check["entries"] if tier in e.get("tiers", ("quick", "thorough"))])
     os.makedirs(CACHE, exist_ok=True)
     workdir = tempfile.mkdtemp(prefix="verif_%s_" % pid, dir=CACHE)
     status = 0
